@@ -8,3 +8,4 @@ pub mod canon;
 pub mod cppgen;
 pub mod c05gen;
 pub mod c05inv;
+pub mod cgen;
